@@ -44,3 +44,13 @@ Print Assumptions C18_once.
 Print Assumptions C18_complete.
 Print Assumptions C18_timeout.
 Print Assumptions C18_in_every_run.
+
+(* ---- the trigger test is the source's: Callback.check translated statement by statement on this
+   run (gen/decide.go -> GeneratedSkel.callback_check_code, interpreted by DecideLang.exec) ---- *)
+From Scrapli Require Import DecideLang GeneratedSkel Decide.
+
+Theorem C18_check_is_source : forall c b,
+  cb_runt (cb_tests_of c b) = Some (cb_check c b, cb_insensitive c).
+Proof. exact callback_check_is_source. Qed.
+
+Print Assumptions C18_check_is_source.
